@@ -216,3 +216,11 @@ Theorem C13_outside_cert_sound S p n g :
   forall x, Checker.Shapes.sem S x -> Q2R g <= norm (vsub x (Checker.Shapes.v2r p)).
 Proof. exact (ShapesCert.outside_cert_sound S p n g). Qed.
 Print Assumptions C13_outside_cert_sound.
+
+(** an accepted mesh point certified by [member_cert] (explicit convex weights, exact rational check)
+    IS a point of the hull of the mesh's world vertices: the per-input substitute for the missing
+    converse of [C13_convex_mesh_complete_partial] *)
+Theorem C13_member_cert_sound S w p :
+  ShapesCert.member_cert S w p = true -> Checker.Shapes.sem S (Checker.Shapes.v2r p).
+Proof. exact (ShapesCert.member_cert_sound S w p). Qed.
+Print Assumptions C13_member_cert_sound.
